@@ -11,7 +11,7 @@ Definition quad_terms (q : quad) : list term :=
 (* the initial state: quads added with add_quad, empty graphs with create_graph, extra dictionary entries *)
 Definition mk_state (init : list quad) (graphs seed : list term) : state :=
   let D := fold_left (fun d q => fst (insert_quad d q)) init (DS [] []) in
-  St (dq D) (tunion (dc D) graphs) (tunion [] (flat_map quad_terms init ++ graphs ++ seed)) 1 [].
+  St (dq D) (tunion (dc D) graphs) (tunion [] (flat_map atoms (flat_map quad_terms init ++ graphs ++ seed))) 1 [].
 
 Definition r_outcome (o : outcome) : N * N * N :=
   match o with Done i d => (0, i, d) | Rejected c => (c, 0, 0) end.
